@@ -60,7 +60,7 @@ only checked builds define) and the stack holds the frame peak of the entry poin
 performs exactly `tr` followed by the terminal flag(s) on its committed timeline, and ends in
 the terminal loop. -/
 theorem core_semantic_preservation (cf : Core.Config) (args : List Int) (pr : Core.CProg) (hw : 2 ≤ cf.w)
-    (hB : Core.progLen cf.checked pr + stdlibLength < 256 ^ cf.w) (hSE : Core.F0 cf args < 256 ^ cf.w)
+    (hB : Core.progLen cf.checked pr + stdlibLength < 256 ^ cf.w) (hSE : Core.F0 cf args + Core.regsLen cf.w pr < 256 ^ cf.w)
     (hwf : Core.wfProg pr = true) (hlen : args.length = pr.params.length)
     (fuel : Nat) (env' : Core.Env) (tr : List Ev) (res : Core.Res)
     (hex : Core.srcRun cf fuel args pr = some (env', tr, res))
@@ -73,15 +73,15 @@ theorem core_semantic_preservation (cf : Core.Config) (args : List Int) (pr : Co
   ⟨m, h⟩
 
 /-- expressions: the emitted code computes `evalE` (the building block, for every placement) -/
-theorem core_expression_correct {p : Prog} {ck : Bool} {B : Nat} (lib : Placed p B) (Γ : Core.Gam) (env : Core.Env)
+theorem core_expression_correct {p : Prog} {ck : Bool} {B dA : Nat} (lib : Placed p B) (Γ : Core.Gam) (env : Core.Env)
     (F D : Nat) (e : Core.E) (pc o rout : Nat) (keep : Bool) (m : Mem)
-    (hpl : PlacedAt p pc (Core.cE (Core.cxOf p ck B) Γ pc o rout e keep).1)
-    (hB : pc + (Core.cE (Core.cxOf p ck B) Γ pc o rout e keep).1.length ≤ B)
+    (hpl : PlacedAt p pc (Core.cE (Core.cxOf p ck B dA) Γ pc o rout e keep).1)
+    (hB : pc + (Core.cE (Core.cxOf p ck B dA) Γ pc o rout e keep).1.length ≤ B)
     (hr : rout = 2 * p.w ∨ rout = 3 * p.w) (fr : Core.Fr p m F D) (hv : Core.VarsOK p.w Γ env m F o)
     (hb : Core.boundE (Γ.map Prod.fst) e = true) (hpk : Core.pkE p.w o e keep ≤ D) (ho : p.w ≤ o)
     (v : Nat) (hev : Core.evalE (256 ^ p.w) (8 * p.w) env e = some v) :
-    ∃ m', Reach (sphinx p) ⟨pc, m⟩ [] ⟨pc + (Core.cE (Core.cxOf p ck B) Γ pc o rout e keep).1.length, m'⟩ ∧
-      Core.Keep p.w m m' (F - o) ∧ Core.valOf p.w m' F (Core.cE (Core.cxOf p ck B) Γ pc o rout e keep).2.1 = v :=
+    ∃ m', Reach (sphinx p) ⟨pc, m⟩ [] ⟨pc + (Core.cE (Core.cxOf p ck B dA) Γ pc o rout e keep).1.length, m'⟩ ∧
+      Core.Keep p.w m m' (F - o) ∧ Core.valOf p.w m' F (Core.cE (Core.cxOf p ck B dA) Γ pc o rout e keep).2.1 = v :=
   let ⟨m', h1, h2, h3, _⟩ := (Core.cE_ok lib Γ env F D e pc o rout keep m hpl hB hr fr hv hb hpk ho).1 v hev
   ⟨m', h1, h2, h3⟩
 
